@@ -2,6 +2,12 @@ import type {NormalizationAst} from '@isograph/react';
 const normalizationAst: NormalizationAst = {
   kind: "NormalizationAst",
   selections: [
+    {
+      kind: "Scalar",
+      isFallible: false,
+      fieldName: "__typename",
+      arguments: null,
+    },
   ],
 };
 export default normalizationAst;
